@@ -223,6 +223,11 @@ class CoroutineProcessor(Processor):
                     del self._generators[gen]
                     self._kill_queue.discard(gen)
                     del self._promises[gen]
+                    # Let it go now: its clean-up code (finally clauses)
+                    # may call back into the processor, which shall not
+                    # happen while the next generator is half way out of
+                    # the wait queue
+                    gen = None
                 else:
                     self._active_queue.append(gen)
                     self._generators[gen] = None
